@@ -23,12 +23,14 @@ def scenarios(tier):
     S.append(scenario('gen_np2', dict(NP=2, MAXITER=1, TEND=8, DT0=4, MAXR=1), rs=(False, True), dtm=(0, 1),
                       constraints=['nblk <= 2'], gen='all', mc=False))
     if tier == 'thorough':
+        # (explored on the real code and validated transition by transition; the exhaustive model checks are those of the smaller
+        #  configurations above -- these three did not finish / exhausted the memory of the driver with 150 000 traces)
         S.append(scenario('T_np4_grow', dict(NP=4, MAXITER=1, TEND=32, DT0=2, MAXR=1), rs=(False, True), dtm=(0, 1, 4),
-                          explore=60000, constraints=['nblk <= 3'], mc_workers=12, mc_timeout=3000))
+                          explore=15000, mc=False))
         S.append(scenario('T_np3_mi2', dict(NP=3, MAXITER=2, TEND=16, DT0=4, MAXR=2), rs=(False, True), dtm=(0, 1, 4),
-                          explore=60000, constraints=['nblk <= 5'], mc_workers=12, mc_timeout=3000))
+                          explore=15000, mc=False))
         S.append(scenario('T_np4_rff', dict(NP=4, MAXITER=1, TEND=16, DT0=4, MAXR=2, RFF=True), rs=(False, True), dtm=(0, 1),
-                          explore=30000, constraints=['nblk <= 5'], mc_workers=12, mc_timeout=3000))
+                          explore=10000, mc=False))
         S.append(scenario('T_rand_np5', dict(NP=5, MAXITER=3, TEND=80, DT0=4, MAXR=3), rs=(False, True), dtm=(0, 1, 4), mc=False,
                           rand=800))
     return S
